@@ -248,6 +248,7 @@ func run(c *wk.Case) {
 	c.Count("cases", 1)
 	c.Count("tasks", n)
 	c.Count("task_switches", st.Switches)
+	c.Count("yields_because_blocked_on_a_lock", st.BlockedYields)
 	for _, s := range st.TraceShort {
 		c.Logf("switch at step %d: task %d -> %d (%s)", s.Step, s.From, s.To, s.Site)
 	}
